@@ -165,3 +165,22 @@ pub fn random_unicode(rng: &mut Rng, max_chars: usize) -> String {
     }
     s
 }
+
+/// One character (two for the 2-byte leads) per possible UTF-8 lead byte 0xC2..=0xF4: text readers
+/// that compare bytes with a wrong mask, or slice at a byte count, meet every lead byte this way.
+pub fn lead_byte_chars() -> Vec<char> {
+    let mut v = Vec::new();
+    for lead in 0xC2u32..=0xDF {
+        for low in [0x05u32, 0x3F] {
+            v.extend(char::from_u32((lead & 0x1F) << 6 | low));
+        }
+    }
+    for lead in 0xE0u32..=0xEF {
+        let second = if lead == 0xE0 { 0x20 } else { 0x00 };
+        v.extend(char::from_u32((lead & 0x0F) << 12 | second << 6 | 0x01));
+    }
+    for cp in [0x1_0000u32, 0x4_0000, 0x8_0000, 0xC_0000, 0x10_0000] {
+        v.extend(char::from_u32(cp));
+    }
+    v
+}
